@@ -229,11 +229,169 @@ def rule_F(ctx):
                   witness={'write chains': wit}, node=fi.node, key='frame:' + fi.name)
 
 
+def rule_G(ctx):
+    """C17.G abs_curv and speed on configuration classes, by interpretation of computeAbsCurv / estimate_speed (and of the
+    repository's Track, ENUCoords, ObsTime, Integrator classes beneath them)"""
+    import math
+    from .. import absint, orders
+    fa = ctx.prog.func(CIN + '.computeAbsCurv')
+    fs = ctx.prog.func(CIN + '.estimate_speed')
+    from .. import npstub
+    fn = absint.funcs(ctx, CIN, dict(npstub.stubs()))
+    fn['deepcopy'] = absint.deep_copy
+    NANV = float('nan')
+    fn['__globals__']['NAN'] = NANV
+    T = absint.classref(ctx, 'tracklib.core.track.Track', fn)
+    absint.operator_table(ctx, fn)
+    EN = absint.classref(ctx, 'tracklib.core.obs_coords.ENUCoords', fn)
+    OT = absint.classref(ctx, 'tracklib.core.obs_time.ObsTime', fn)
+    fn['atan2'], fn['hypot'] = math.atan2, math.hypot
+
+    class O(orders.PyStub):
+        isa = ('Obs',)
+
+        def __init__(self, k, pos, ts):
+            self.k = k
+            self.position = pos
+            self.timestamp = ts
+            self.features = []
+
+        def copy(self):
+            o = O(self.k, absint.deep_copy(self.position), absint.deep_copy(self.timestamp))
+            o.features = list(self.features)
+            return o
+
+        def distance2DTo(self, o):
+            return self.position.call('distance2DTo', o.position)
+
+        def distanceTo(self, o):
+            return self.position.call('distanceTo', o.position)
+
+    def stamp(sec_of_day, ms=0, day=15):
+        s = int(sec_of_day)
+        return OT(2021, 3, day, s // 3600, (s // 60) % 60, s % 60, ms)
+    base_t = 12 * 3600
+    # (name, positions (E, N, U), times as (seconds of the day, ms, day))
+    shapes = {
+        'generic line, 1 s sampling': ([(0, 0, 0), (3, 4, 0), (3, 10, 0), (11, 10, 0), (11, 4, 0)], [(base_t + k, 0, 15) for k in range(5)]),
+        'exactly repeated position after some movement (a pause)': ([(0, 0, 0), (3, 4, 0), (3, 4, 0), (6, 8, 0), (6, 8, 0), (9, 12, 0)], [(base_t + 2 * k, 0, 15) for k in range(6)]),
+        'purely vertical move (same E, N; other height)': ([(0, 0, 0), (6, 8, 0), (6, 8, 25), (12, 16, 25)], [(base_t + k, 0, 15) for k in range(4)]),
+        'heights differ on every leg (slant distance differs from planimetric)': ([(0, 0, 0), (3, 4, 12), (6, 8, 0), (9, 12, 40)], [(base_t + k, 0, 15) for k in range(4)]),
+        'legs shorter than 0.1 mm on every axis (receiver jitter)': ([(0, 0, 0), (0.00003, 0.00004, 0), (0.00006, 0.00008, 0), (0.00009, 0.00012, 0)], [(base_t + k, 0, 15) for k in range(4)]),
+        'sub-second sampling (millisecond stamps)': ([(0, 0, 0), (3, 4, 0), (6, 8, 0), (9, 12, 0)], [(base_t, 0, 15), (base_t, 250, 15), (base_t, 500, 15), (base_t + 1, 125, 15)]),
+        'two fixes with the same timestamp': ([(0, 0, 0), (3, 4, 0), (6, 8, 0), (9, 12, 0)], [(base_t, 0, 15), (base_t + 1, 0, 15), (base_t + 1, 0, 15), (base_t + 2, 0, 15)]),
+        'neighbours of a fix share a timestamp': ([(0, 0, 0), (3, 4, 0), (6, 8, 0), (9, 12, 0)], [(base_t, 0, 15), (base_t + 1, 0, 15), (base_t, 0, 15), (base_t + 3, 0, 15)]),
+        'timestamps going backwards (a fix logged late)': ([(0, 0, 0), (3, 4, 0), (6, 8, 0), (9, 12, 0)], [(base_t, 0, 15), (base_t + 5, 0, 15), (base_t + 2, 0, 15), (base_t + 9, 0, 15)]),
+        '1 ms sampling': ([(0, 0, 0), (3, 4, 0), (6, 8, 0), (9, 12, 0)], [(base_t, 0, 15), (base_t, 1, 15), (base_t, 2, 15), (base_t, 3, 15)]),
+        'neighbours of a fix share position and timestamp': ([(0, 0, 0), (3, 4, 0), (5, 5, 0), (3, 4, 0), (9, 12, 0)],
+                                                              [(base_t, 0, 15), (base_t + 1, 0, 15), (base_t + 2, 0, 15), (base_t + 1, 0, 15), (base_t + 4, 0, 15)]),
+        'across midnight': ([(0, 0, 0), (3, 4, 0), (6, 8, 0)], [(86399, 0, 15), (0, 500, 16), (2, 0, 16)]),
+        'two fixes': ([(0, 0, 0), (3, 4, 7)], [(base_t, 0, 15), (base_t + 2, 0, 15)]),
+    }
+    found = {}
+    n_cases = 0
+
+    def close(a, b):
+        if isinstance(a, float) and a != a:
+            return isinstance(b, float) and b != b
+        if not isinstance(a, (int, float)) or isinstance(a, bool) or not isinstance(b, (int, float)):
+            return False
+        return abs(a - b) <= 1e-9 * max(1.0, abs(a), abs(b))
+
+    for sname, (pts, times) in shapes.items():
+        def build():
+            return T([O(k, EN(float(p_[0]), float(p_[1]), float(p_[2])), stamp(*tm)) for k, (p_, tm) in enumerate(zip(pts, times))], 'u', 't')
+        n = len(pts)
+        legs = [0.0] + [math.hypot(pts[k][0] - pts[k - 1][0], pts[k][1] - pts[k - 1][1]) for k in range(1, n)]
+        want_s = [sum(legs[:k + 1]) for k in range(n)]
+        secs = [tm[2] * 86400 + tm[0] + tm[1] / 1000.0 for tm in times]
+
+        def pair(i):
+            return (1, 0) if i == 0 else ((n - 1, n - 2) if i == n - 1 else (i + 1, i - 1))
+        want_v = []
+        tol_v = []
+        for i in range(n):
+            a, b = pair(i)
+            dt = secs[a] - secs[b]
+            d = math.hypot(pts[a][0] - pts[b][0], pts[a][1] - pts[b][1])
+            want_v.append(NANV if abs(dt) < 1e-9 else d / dt)
+            # timestamps are subtracted as float epoch seconds (~1.6e9, spacing 2.4e-7 s): the elapsed time carries that rounding
+            tol_v.append(0.0 if abs(dt) < 1e-9 else abs(d / dt) * 6e-7 / abs(dt))
+        tol_s = [0.0] * n
+        snapshot = [(k, tuple(float(c) for c in p_), tm) for k, (p_, tm) in enumerate(zip(pts, times))]
+
+        def state_of(t):
+            out = []
+            for o in t.fields['_Track__POINTS']:
+                p_, ts = o.position, o.timestamp
+                out.append((o.k, (p_.fields['E'], p_.fields['N'], p_.fields['U']),
+                            (ts.fields['hour'] * 3600 + ts.fields['min'] * 60 + ts.fields['sec'], ts.fields['ms'], ts.fields['day'])))
+            return out
+        for what, f, call, want, feat, tol in (('abs_curv', fa, 'computeAbsCurv', want_s, 'abs_curv', tol_s), ('speed', fs, 'estimate_speed', want_v, 'speed', tol_v)):
+            t = build()
+            n_cases += 1
+            case = {'track': sname, 'positions (E, N, U)': [list(p_) for p_ in pts], 'times (s)': [round(s_ - secs[0], 3) for s_ in secs]}
+            try:
+                res = fn['__name__'](call)(t)
+                got = t.call('getAnalyticalFeature', feat)
+                fn['__name__'](call)(t)                     # repeated computation on the same track
+                again = t.call('getAnalyticalFeature', feat)
+                if isinstance(got, list) and isinstance(again, list) and len(got) == len(again) and not all(close(a_, b_) for a_, b_ in zip(got, again)):
+                    found.setdefault((what, 'repeat'), (f, 'computing %s a second time on the same track gives the same values' % what,
+                                                        dict(case, first=got, second=again)))
+            except orders.Unsupported as ex:
+                raise shape_error('%s not interpretable: %s' % (call, ex), f.loc())
+            except (ZeroDivisionError, IndexError, KeyError, TypeError, AttributeError, ValueError, orders.Raised, RecursionError) as ex:
+                found.setdefault((what, 'fails'), (f, '%s does not fail' % call, dict(case, exception='%s: %s' % (type(ex).__name__, str(ex)[:160]))))
+                continue
+            if state_of(t) != snapshot:
+                found.setdefault((what, 'frame'), (f, '%s leaves every position and timestamp, and the order of the observations, as they were' % call,
+                                                   dict(case, **{'observations after (index, position, time of day/ms/day)': state_of(t)[:6]})))
+                continue
+            def near(g_, w_, tl):
+                return close(g_, w_) or (isinstance(g_, (int, float)) and not isinstance(g_, bool) and g_ == g_ and w_ == w_ and abs(g_ - w_) <= tl)
+            if not isinstance(got, list) or len(got) != n or not all(near(g_, w_, tl) for g_, w_, tl in zip(got, want, tol)):
+                k_bad = next((k for k, (g_, w_, tl) in enumerate(zip(got, want, tol)) if not near(g_, w_, tl)), None) if isinstance(got, list) else None
+                desc = ('abs_curv starts at 0, grows by the planimetric distance between consecutive fixes and ends at the planimetric length'
+                        if what == 'abs_curv' else
+                        'speed is planimetric distance over elapsed time: one-sided at both ends, centred elsewhere, NaN exactly when the elapsed time is 0')
+                found.setdefault((what, 'value'), (f, desc, dict(case, **{'feature': got if not isinstance(got, list) else [g_ if isinstance(g_, (int, float)) else repr(g_) for g_ in got],
+                                                                         'expected': want, 'first index that differs': k_bad})))
+    # the running sum itself, on a feature whose first value is not 0 (ds is): Y[0] = 0, Y[i] = Y[i-1] + X[i]
+    fi_ = ctx.prog.func(OPS + '.Integrator.execute')
+    for xs in ([5.0, 1.0, 2.0, 4.0], [3.0], [2.0, 0.0, 0.0, 7.0, 0.0], [1.5, -1.5, 2.0]):
+        t = T([O(k, EN(float(k), 0.0, 0.0), stamp(base_t + k)) for k in range(len(xs))], 'u', 't')
+        n_cases += 1
+        try:
+            t.call('createAnalyticalFeature', 'a', list(xs))
+            t.call('operate', fn['Operator'].INTEGRATOR, 'a', 'b')
+            got = t.call('getAnalyticalFeature', 'b')
+            src = t.call('getAnalyticalFeature', 'a')
+        except orders.Unsupported as ex:
+            raise shape_error('Integrator not interpretable: %s' % ex, fi_.loc())
+        except (ZeroDivisionError, IndexError, KeyError, TypeError, AttributeError, ValueError, orders.Raised) as ex:
+            found.setdefault(('integrator', 'fails'), (fi_, 'the running-sum operator does not fail', {'input': xs, 'exception': '%s: %s' % (type(ex).__name__, str(ex)[:160])}))
+            continue
+        want = [0.0]
+        for x_ in xs[1:]:
+            want.append(want[-1] + x_)
+        if not isinstance(got, list) or len(got) != len(want) or not all(close(g_, w_) for g_, w_ in zip(got, want)) or src != xs:
+            found.setdefault(('integrator', 'value'), (fi_, 'the running sum is Y[0] = 0, Y[i] = Y[i-1] + X[i] (a zero or repeated increment carries the total on), input feature untouched',
+                                                       {'input': xs, 'output': got, 'expected': want, 'input afterwards': src}))
+    for (what, key), (f, desc, wit) in sorted(found.items()):
+        ctx.violation('C17.G', f, desc, wit, node=f.node, key='%s:%s' % (what, key))
+    if not any(w_ == 'integrator' for w_, _ in found):
+        ctx.ok('C17.G', fi_, 'Integrator: Y[0] = 0, Y[i] = Y[i-1] + X[i] on 4 input vectors (zero, negative and single-element cases)', node=fi_.node)
+    if not any(w_ == 'abs_curv' for w_, _ in found):
+        ctx.ok('C17.G', fa, 'computeAbsCurv: 0 at the first fix, increments = planimetric leg lengths, last = length, track untouched (%d configuration classes)' % len(shapes), node=fa.node)
+    if not any(w_ == 'speed' for w_, _ in found):
+        ctx.ok('C17.G', fs, 'estimate_speed: distance/time of the documented pair of fixes, NaN iff no time elapsed, track untouched (%d configuration classes)' % len(shapes), node=fs.node)
+    ctx.extra['C17.G cases'] = n_cases
+
+
 RULES = [
-    ('C17.D', rule_D, 'quick'),
-    ('C17.I', rule_I, 'quick'),
+    ('C17.G', rule_G, 'quick'),
     ('C17.W', rule_W, 'quick'),
-    ('C17.S', rule_S, 'quick'),
     ('C17.F', rule_F, 'quick'),
 ]
-MIN_OBLIGATIONS = 15
+MIN_OBLIGATIONS = 10
